@@ -100,6 +100,15 @@ func judgeC13(c *Ctx, sc *Scenario) *Violation {
 		m2.Inv.Cwd = "gitdir"
 		modes = append(modes, mode{name: "inside .git", sc: m2, site: site})
 	}
+	if site.WorkDir != "" {
+		ms := base
+		ms.Inv.Cwd = "symlink"
+		modes = append(modes, mode{name: "subdirectory entered through a symbolic link", sc: ms, site: site})
+		ms2 := base
+		ms2.Inv.Cwd = "symlink"
+		ms2.Inv.Env = map[string]string{"GIT_DIR": "../../.git"}
+		modes = append(modes, mode{name: "GIT_DIR=../../.git in a subdirectory entered through a symbolic link", sc: ms2, site: site})
+	}
 	m3 := base
 	m3.Inv.Cwd = "elsewhere"
 	m3.Inv.Env = map[string]string{"GIT_DIR": "$GITDIR"}
@@ -674,7 +683,7 @@ func init() {
 		"in-process variants (C17 only)": "engine A built with -race: same delivery order under different chunking, delays, pipe capacities and flush policies",
 	}
 	Register(&Prop{ID: "C13", Check: checkC13, Replay: judgeC13, Components: compB,
-		Rule: "engine B only (real git semantics are the point): generated repositories with reflogs, replace references for commits / trees / blobs and graft lines that add, drop or redirect parents; the real binary is started at the top of the work tree, in a subdirectory, inside .git, with GIT_DIR absolute and relative from an unrelated directory, on a bare / non-bare twin, in a linked worktree and as `git -C <dir> sizer`; stdout must be byte-identical across modes and the numbers equal the model evaluated on the stored graph (refs/replace/* being ordinary references); a real `git clone --depth 1` of the repository must be refused with an error and no report. non-trivial: the world carries replace refs or grafts; distinct by scenario hash"})
+		Rule: "engine B only (real git semantics are the point): generated repositories with reflogs, replace references for commits / trees / blobs and graft lines that add, drop or redirect parents; the real binary is started at the top of the work tree, in a subdirectory, inside .git, with GIT_DIR absolute and relative from an unrelated directory, on a bare / non-bare twin, in a linked worktree, in a subdirectory entered through a symbolic link (with and without a relative GIT_DIR containing ..) and as `git -C <dir> sizer`; one world in three spells out core.useReplaceRefs=true in one of four configuration scopes; stdout must be byte-identical across modes and the numbers equal the model evaluated on the stored graph (refs/replace/* being ordinary references); a real `git clone --depth 1` of the repository must be refused with an error and no report. non-trivial: the world carries replace refs or grafts; distinct by scenario hash"})
 	Register(&Prop{ID: "C17", Check: checkC17, Replay: judgeC17, Components: compB,
 		Rule: "generated repositories (loose / packed-refs / repacked, reflogs, an index and untracked files in the work tree) x command lines of every format; the real -race binary runs at GOMAXPROCS 1 and 16, the plain binary 12 more times at GOMAXPROCS 2/3/4/5/8/16 with proxy re-chunking and delays on every other run (two thirds of the worlds carry deliberate ties: equally large maximal blobs side by side, equal tag depths), then the -race in-process engine runs 3 plan variants (same delivery order, different chunking / delays / pipe capacities / flush policies): stdout byte-identical across all runs, any race-detector report is a violation, and a digest of every path of the repository (type, mode, size, SHA-256) and of $HOME is unchanged afterwards. Goroutine choice inside git-sizer is sampled, not decided. distinct by scenario hash"})
 }
